@@ -340,6 +340,11 @@ pub fn finish(
     engine: &str,
 ) -> Verdict {
     let dir = verif_dir();
+    let mut counters = merged.counters.clone();
+    let skipped = crate::history::skipped_crashing_cases();
+    if skipped > 0 {
+        counters.insert("excluded_crashing_histories".into(), skipped);
+    }
     let _ = std::fs::create_dir_all(dir.join("evidence"));
     let mut violations = 0;
     let mut replay_path = None;
@@ -386,7 +391,7 @@ pub fn finish(
             "exhaustive": merged.exhaustive,
             "classes": merged.classes,
             "clause_evaluations": merged.clause_evals,
-            "counters": merged.counters,
+            "counters": counters,
             "abandoned_foreign": merged.abandoned_foreign,
             "excluded_by_known_finding": if known.is_some() { 1 } else { 0 },
         },
